@@ -7,6 +7,7 @@ var units = map[string]common.UnitFunc{
 	"c19eddsa":    unitC19eddsa,
 	"c19ecdsa":    unitC19ecdsa,
 	"c19orch":     unitC19orch,
+	"c10binance":  unitC10binance,
 	"c20eddsa":    unitC20eddsa,
 	"c13adapters": unitC13adapters,
 }
